@@ -24,7 +24,7 @@ structure UExt where
 
 /-- parse.go `isUnicodeWhitespace`. -/
 def isUnicodeWhitespace (u : UExt) (c : Nat) : Bool :=
-  (c ≤ 0x7F && isSpaceTabOrLineEnding (UInt8.ofNat c)) || u.isZs c
+  (c ≤ 0x7F && (isSpaceTabOrLineEnding (UInt8.ofNat c) || c == 0x0C)) || u.isZs c
 
 /-- parse.go `isUnicodePunctuation`. -/
 def isUnicodePunctuation (u : UExt) (c : Nat) : Bool :=
